@@ -469,15 +469,15 @@ func C14(tier string) int {
 		fullN = 3
 	}
 	run.Coverage = map[string]any{
-		"evaluations":          cells + schedExecs,
-		"distinct_nontrivial":  len(outcomes),
-		"rule":                 fmt.Sprintf("for every accepted (n,t) with n <= %d and every conflicting pair (double vote with same and with other source, surround, double proposal, and double votes / double proposal at the lowest legal values 0->0, 0->1, slot 0): every assignment of request sequences over the two duties to the instances (all 15 sequences of length <= 3 per instance for n <= %d, five representative sequences above), each on a freshly DKG-generated account on real instances; on a 2-of-2 account one instance additionally receives every sequence of length <= 2 over duty x route (single by name, single by share key, batch of one, batch of two after an approved companion, batch of two before a refused companion), the sequences containing a batch of two also with GOMAXPROCS=1 so that one Scatter worker handles the whole batch; per assignment no instance may release partial signatures for both duties, and real threshold recovery over every t-subset must not succeed for both duties; plus both duties delivered concurrently to one instance under the cooperative scheduler (preemption bound %d); distinct = (n,t,pair,outcome vector) classes", maxN, fullN, bound),
-		"samples":              samples.List(),
+		"evaluations":                         cells + schedExecs,
+		"distinct_nontrivial":                 len(outcomes),
+		"rule":                                fmt.Sprintf("for every accepted (n,t) with n <= %d and every conflicting pair (double vote with same and with other source, surround, double proposal, and double votes / double proposal at the lowest legal values 0->0, 0->1, slot 0): every assignment of request sequences over the two duties to the instances (all 15 sequences of length <= 3 per instance for n <= %d, five representative sequences above), each on a freshly DKG-generated account on real instances; on a 2-of-2 account one instance additionally receives every sequence of length <= 2 over duty x route (single by name, single by share key, batch of one, batch of two after an approved companion, batch of two before a refused companion), the sequences containing a batch of two also with GOMAXPROCS=1 so that one Scatter worker handles the whole batch; per assignment no instance may release partial signatures for both duties, and real threshold recovery over every t-subset must not succeed for both duties; plus both duties delivered concurrently to one instance under the cooperative scheduler (preemption bound %d); distinct = (n,t,pair,outcome vector) classes", maxN, fullN, bound),
+		"samples":                             samples.List(),
 		"routed_sequences_with_one_processor": oneProc,
-		"exhaustive":           !capped,
-		"assignments":          cells,
-		"scheduler_executions": schedExecs,
-		"outcomes":             len(outcomes),
+		"exhaustive":                          !capped,
+		"assignments":                         cells,
+		"scheduler_executions":                schedExecs,
+		"outcomes":                            len(outcomes),
 	}
 	run.Assumptions = []string{"instances share no state on the signing path (checked: no inter-instance message while signing)", "the BLS library is correct"}
 	return run.Finish()
